@@ -145,7 +145,7 @@ Qed.
 (* read-only: every mutating operation raises OSError and leaves every file alone *)
 Definition mutating (d : adir) (o : aop) : bool :=
   match o with
-  | OpIterAppend _ | OpTruncate _ | OpSetItem _ | OpMetaSet => true
+  | OpIterAppend _ | OpTruncate _ | OpSetItem _ | OpMetaSet | OpMetaPop => true
   | OpMetaClear => a_meta d
   | OpSetMode _ | OpReopen _ => false
   end.
@@ -159,6 +159,7 @@ Proof.
   - unfold setitem. rewrite Hm. reflexivity.
   - unfold meta_set. rewrite Hm. reflexivity.
   - unfold meta_clear. rewrite Hmut, Hm. reflexivity.
+  - unfold meta_pop. rewrite Hm. reflexivity.
 Qed.
 
 Corollary readonly_unchanged : forall h d o,
